@@ -206,7 +206,7 @@ SPEC = dict(
     harness_args=["c02"],
     driver_args=["c02"],
     ml_modules=["scan_model"],
-    n={"quick": 850, "thorough": 10000},
+    n={"quick": 850, "thorough": 6000},
     search_n={"quick": 3000, "thorough": 20000},
     nontrivial=nontrivial,
     histogram=histogram,
